@@ -55,6 +55,15 @@ def build(ctx):
         t = list(r * n + other)
         rng.shuffle(t)
         seqs += [r * n, ''.join(t)]
+    # a composition grid: every length 1..130 with several charged counts (counts recovered through floats go wrong on
+    # particular (N, k) pairs only)
+    for n in range(1, ctx.pick(131, 301)):
+        for k in sorted({0, 1, 2, n, n // 2, rng.randint(0, n), rng.randint(0, n), rng.randint(0, n), rng.randint(0, n)}):
+            if 0 <= k <= n:
+                a = rng.randint(0, k)
+                t = list('K' * a + 'E' * (k - a) + ''.join(rng.choice('GSAQPNTHC') for _ in range(n - k)))
+                rng.shuffle(t)
+                seqs.append(''.join(t))
     res = pmap(_obs, seqs)
     cases = []
     ctx.direct_failures = []
